@@ -165,6 +165,8 @@ class Threads(EngineBase):
                 ops.append({"op": "enter"})
             elif r < 0.26:
                 ops.append({"op": rng.choice(["exit", "exit", "exit_exc"])})
+            elif r < 0.30:
+                ops.append({"op": "str", "how": rng.choice(["str", "repr"])})
             elif r < 0.62:
                 ops.append({"op": "get", "m": rng.choice(ALL_GETTERS)})
                 if rng.random() < 0.06:
@@ -291,6 +293,8 @@ class Threads(EngineBase):
                             except RuntimeError:
                                 pass
                     out = ("value", None)
+                elif kind == "str":
+                    out = ("value", op["how"] == "repr" and repr(p) or str(p))
                 elif kind == "get":
                     if op.get("esrch"):
                         # this one record answers ESRCH although the process
@@ -314,6 +318,21 @@ class Threads(EngineBase):
                     raise
                 out = ("exc", e)
             k.end_op()
+            if kind in ("get", "as_dict") and out[0] == "value":
+                # what psutil hands out belongs to the caller, who may edit
+                # it in place; psutil's later answers must not change
+                import copy as _copy
+                orig_ = out[1]
+                out = ("value", _copy.deepcopy(orig_))
+                for v_ in ([orig_] + (list(orig_.values()) if isinstance(
+                        orig_, dict) else [])):
+                    try:
+                        if isinstance(v_, list):
+                            v_.append("<edited by the caller>")
+                        elif isinstance(v_, dict):
+                            v_["<edited by the caller>"] = 1
+                    except Exception:  # noqa: BLE001
+                        pass
             acc = [a for a in k.acclog[acc0:] if a[2] >= 0]
             if kind == "as_dict" and op.get("dup") and not stack and \
                     not op.get("deny") and out[0] == "value":
@@ -392,6 +411,23 @@ class Threads(EngineBase):
                     block = None
                 continue
             zombie = T in k.procs and k.procs[T].zombie
+            if kind == "str":
+                # printing the object (logging, a debugger) is an implicit
+                # nested block: it changes nothing for the enclosing one
+                if out[0] == "exc":
+                    V("C16.exception", [type(out[1]).__name__], "str",
+                      "str(process) raised %r" % (out[1],))
+                elif stack and block is not None:
+                    block["nested"] = True
+                    for w, v in reads.items():
+                        block["first"].setdefault(w, v)
+                    block.setdefault("allreads", []).extend(allreads)
+                    for w, n in opens.items():
+                        block["opens"][w] = block["opens"].get(w, 0) + n
+                    probes["printed_inside_block"] = probes.get(
+                        "printed_inside_block", 0) + 1
+                just_exited = False
+                continue
             if kind == "as_dict":
                 self._check_as_dict(psutil, k, V, op, out, acc, zombie,
                                     block, stack, probes)
